@@ -1135,6 +1135,17 @@ func (g *jsGen) stmt() string {
 			}
 			return "({get g(){var p=" + g.number() + ";" + body + "return 1}}).g;"
 		}
+		// a block that holds nothing but a comment the minifier keeps (`/*! … */`): it is still the body
+		switch r.Intn(5) {
+		case 0:
+			return "if(" + g.expr(2) + "){/*! keep */}else " + g.exprStmt()
+		case 1:
+			return "if(" + g.expr(2) + ")" + g.exprStmt() + "else{//! keep\n}" + g.exprStmt()
+		case 2:
+			return "for(var k7=0;k7<2;k7++){/*! keep */}" + g.exprStmt()
+		case 3:
+			return "if(" + g.expr(2) + "){\n//! keep\n}" + g.exprStmt()
+		}
 		return ";"
 	case 34:
 		// closure capturing loop variable
